@@ -42,10 +42,12 @@ def scenario(i, policy, fkind, fat, hist, rnd, kind="cip", withblock=False):
         if withblock and h == "open":
             c = {"api": "enter"}
         if withblock and h == "close":
-            c = {"api": "exit", "raising": rnd.random() < 0.5}
+            c = {"api": "exit", "raising": rnd.choice([False, True, "comm"])}
         calls.append(c)
     sc = {"id": "L%d" % i, "family": "lifecycle-" + kind + ("-with" if withblock else ""),
-          "target": {"policy": policy, "script": script, "identity": S.identity(fw=rnd.choice([19, 21, 32]))},
+          "target": {"policy": policy, "script": script, "identity": S.identity(fw=rnd.choice([19, 21, 32])),
+                     "handles": rnd.choice([[0x11, 0x12, 0x13, 0x14, 0x15, 0x16, 0x17, 0x18], [0x80000000, 0xFFFFFFFF, 0x7FFFFFFF, 0x80000001, 5, 6, 7, 8],
+                                            [0xFFFFFFFE, 1, 0x90000000, 2, 0xA0000000, 3, 0xB0000000, 4]])},
           "driver": {"kind": kind, "path": path, "route": route}, "calls": calls,
           "fault": None if fkind == "none" else {"at": "op", "n": fat, "kind": fkind}}
     if kind == "logix":
